@@ -1,5 +1,5 @@
 """C07 — dual hashes: canonical storage discipline of the RLE side table (structural clauses)."""
-from ..rules import tail, fields, eqord, parser, panic
+from ..rules import tail, fields, eqord, parser, panic, rle
 
 EXPL = ("Decides: SA-TAIL: on every construction route the RLE block is terminator-filled from the encoder's final offset to the end and "
         "the normalised block hash is zero-filled from its stored length; every write into an RLE block anywhere in the crate is "
@@ -7,7 +7,9 @@ EXPL = ("Decides: SA-TAIL: on every construction route the RLE block is terminat
         "rle_encoding::encode(..) results) - so no route can produce a non-canonical tail; both RLE blocks are reset together by "
         "normalize_in_place; SA-FIELDS: Eq/Hash/Ord of the dual type use all three components, like with like, Ord starts with the "
         "normalised part; compress/expand/validity calls receive like-indexed (blockhashK, len_blockhashK, rle_blockK, SK/CK) tuples; "
-        "the parser route builds the dual from the raw parse via from_raw_form (who-may-call rule on the encoder, F1 fixed). "
+        "SA-FORMULA: encode(pos,len) = pos | ((len-1) << 6) and decode(v) = (v & 63, (v >> 6) + 1) are an "
+        "inverse pair by shape, the encoder emits (len-4)/4 groups of 4 followed by one group of (len-4)%4+1 and returns the advanced "
+        "offset, the compressor hands it (stored length - 1, repeat counter + 1); the parser route builds the dual from the raw parse via from_raw_form (who-may-call rule on the encoder, F1 fixed). "
         "NOT decided: expand(compress(x)) == x and canonicity of the (position,length) arithmetic.")
 
 
@@ -23,6 +25,7 @@ def run(ctx):
         ctx.guard("C07", "eq", lambda: eqord.eq_hash_ord(ctx, prog, "FuzzyHashDualData"))
         ctx.guard("C07", "sym", lambda: eqord.len_index_symmetry(ctx, prog, scope=r"hash_dual::", floor=8))
         ctx.guard("C07", "encoder", lambda: encoder_callers(ctx, prog))
+        ctx.guard("C07", "rle-formulas", lambda: rle.encoding(ctx, prog))
     return ctx.finish(EXPL, ["raw inputs of the compressor are valid raw block hashes (length <= capacity)"])
 
 
